@@ -267,7 +267,103 @@ def suite_fault(pid, tier, seed):
                 stats=dict(cases=len(cases), fault_runs=len(R), distribution=dist_of(cases), diffs=len(diffs)))
 
 
-SUITES = dict(seq=suite_seq, crash=suite_crash, fault=suite_fault)
+
+# ------------------------------------------------------------------------------- codec (K1)
+def suite_codec(pid, tier, seed):
+    import subprocess, tempfile
+    spec = PROPS[pid]
+    n = 6000 if tier == "quick" else 200000
+    rng = random.Random(seed * 1000003 + 41)
+    items = gen.codec_lines(rng, n)
+    want = spec.get("codec_kinds")
+    if want:
+        items = [it for it in items if it[0].split()[0] in want]
+    def go():
+        d = run.scratch_dir()
+        try:
+            outs = {"real": [], "model": []}
+            chunks = [items[i::run.NPROC] for i in range(run.NPROC)]
+            from concurrent.futures import ThreadPoolExecutor
+            def one(i):
+                f = os.path.join(d, f"k{i}.txt")
+                open(f, "w").write("\n".join(l for l, _ in chunks[i]) + "\n")
+                r = subprocess.run([run.HX, "codec", f], stdout=subprocess.PIPE, text=True, timeout=1200).stdout.splitlines()
+                m = subprocess.run([run.DRIVER, "--codec", f], stdout=subprocess.PIPE, stderr=subprocess.DEVNULL, text=True, timeout=1200).stdout.splitlines()
+                return r, m
+            with ThreadPoolExecutor(max_workers=run.NPROC) as ex:
+                res = list(ex.map(one, range(run.NPROC)))
+            return dict(res=res)
+        finally:
+            import shutil; shutil.rmtree(d, ignore_errors=True)
+    res = cached(f"codec-{tier}-{seed}-{n}-{sorted(want) if want else ''}", go)["res"]
+    diffs, failures, distinct = [], [], set()
+    chunks = [items[i::run.NPROC] for i in range(run.NPROC)]
+    nlines = 0
+    kinds = {}
+    for ci, (r, m) in enumerate(res):
+        for li, (line, exp) in enumerate(chunks[ci]):
+            nlines += 1
+            kind = line.split()[0]
+            kinds[kind] = kinds.get(kind, 0) + 1
+            rl = r[li] if li < len(r) else "<missing>"
+            ml = m[li] if li < len(m) else "<missing>"
+            body = rl.split(" -> ", 1)[1] if " -> " in rl else rl
+            val, _, peak = body.rpartition(" peak=")
+            mval = ml.split(" -> ", 1)[1] if " -> " in ml else ml
+            if val != mval:
+                diffs.append(f"K1 codec correspondence differs on `{line[:120]}`: impl `{val[:120]}` vs model `{mval[:120]}`")
+            where = f"codec line `{line[:200]}`"
+            if val == "PANIC" or rl == "<missing>":
+                failures.append(mk_failure("codec", "codec", line, where, "decoder_total", f"decoder panicked or died on {line[:300]}"))
+            elif exp is not None and val != exp:
+                failures.append(mk_failure("codec", "codec", line, where, "roundtrip", f"`{line[:300]}` gave `{val[:300]}`, the documented format gives `{exp[:300]}`"))
+            if kind in ("decop", "decidx") and peak.isdigit():
+                inlen = (len(line.split()[1]) // 2) if line.split()[1] != "-" else 0
+                if int(peak) > 64 * inlen + 8192:
+                    failures.append(mk_failure("codec", "codec", line, where, "alloc_bound", f"decoder allocated {peak} bytes for an input of {inlen} bytes"))
+            distinct.add("k1:" + hashlib.sha1(line.encode()).hexdigest()[:16])
+    failures = [f for f in failures if f["tag"] in spec["tags"]]
+    return dict(evaluations=nlines, distinct=distinct, samples=[dict(suite="codec", lines=[l for l, _ in items[:6]])],
+                diffs=diffs[:5], failures=failures, traces=nlines, stats=dict(lines=nlines, kinds=kinds, diffs=len(diffs)))
+
+
+# ------------------------------------------------------------------------------- range cube (K8)
+def suite_range(pid, tier, seed):
+    spec = PROPS[pid]
+    rng = random.Random(seed * 1000003 + 43)
+    cases = gen.range_cases(rng, tier == "thorough")
+    real, model = both_sides(f"range-{tier}-{seed}", cases, "plain")
+    R, M = run.by_case(real), run.by_case(model)
+    diffs, failures, distinct = [], [], set()
+    nreq = 0
+    for c in cases:
+        name = case_name(c)
+        rl, ml = R.get(name, []), M.get(name, [])
+        d = run.first_diff(filt(rl, {"ret"}), filt(ml, {"ret"}))
+        if d:
+            diffs.append(f"K8 range correspondence differs in case {name}: impl `{d[1]}` vs model `{d[2]}`")
+        for tag, msg in oracle.seq_oracle(c, rl):
+            if tag in ("reads", "sizes", "nofail", "returns"):
+                failures.append(mk_failure("range", "plain", c, name, "range_slice", msg))
+        # allocation: `A <idx> peak=<n> len=<L>` lines follow range results
+        L = None
+        for l in rl:
+            if l.startswith("R ") and " size " in l and "size:" in l:
+                L = int(l.rsplit("size:", 1)[1])
+            if l.startswith("A "):
+                pk = int(l.split("peak=")[1].split()[0])
+                if L is not None and pk > L + 16384:
+                    failures.append(mk_failure("range", "plain", c, name, "range_alloc", f"range request allocated {pk} bytes for a blob of {L} bytes: {l}"))
+        for l in rl:
+            if l.startswith("R ") and " range " in l:
+                nreq += 1
+                distinct.add("rg:" + name + ":" + l.split(" -> ")[0].split(" ", 2)[2])
+    failures = [f for f in failures if f["tag"] in spec["tags"]]
+    return dict(evaluations=nreq, distinct=distinct, samples=[dict(suite="range", case=cases[1].splitlines()[:10])],
+                diffs=diffs[:5], failures=failures, traces=len(cases), stats=dict(cases=len(cases), requests=nreq, diffs=len(diffs)))
+
+
+SUITES = dict(seq=suite_seq, crash=suite_crash, fault=suite_fault, codec=suite_codec, range=suite_range)
 
 # ------------------------------------------------------------------------------- known findings
 KNOWN_CLASSES = {}
